@@ -251,7 +251,7 @@ fn prepare_fuzz(tier: Tier, seed: u64, _dir: &Path) -> Result<Value, PrepError> 
             .arg(format!("-runs={}", runs))
             .arg("-len_control=0")
             .arg("-max_len=256")
-            .arg("-timeout=20")
+            .arg("-timeout=90")
             .arg("-rss_limit_mb=2048")
             .arg(format!("-artifact_prefix={}/", arts.display()))
             .stdin(Stdio::null())
